@@ -60,7 +60,8 @@ def run_history(hist, bind, stopsig, wk="sync", nopid=False, extra_args=()):
     every USR2 is preceded by a deployment (symlink repointed, previous release removed)"""
     release = "@release" in extra_args
     relcfg = "@relcfg" in extra_args        # -c names the configuration file relative to the start directory, --chdir another directory
-    extra_args = tuple(x for x in extra_args if x not in ("@release", "@relcfg"))
+    envargs = "@envargs" in extra_args      # the pid file is configured through GUNICORN_CMD_ARGS instead of the command line
+    extra_args = tuple(x for x in extra_args if x not in ("@release", "@relcfg", "@envargs"))
     early = any(op == "USR2_EARLY" for op, _ in hist)
     daemon = any(op == "WINCH" for op, _ in hist)
     flag = os.path.join(rp._scratch(), "broken_%d_%d" % (os.getpid(), threading.get_ident()))
@@ -70,6 +71,10 @@ def run_history(hist, bind, stopsig, wk="sync", nopid=False, extra_args=()):
     s = rp.Server(wk, workers=1, bind=bind, pidfile=not nopid, daemon=daemon,
                   args=["--graceful-timeout", "3"] + (["--preload"] if early else []) + list(extra_args), env=env, name="c14",
                   release=release, relcfg=relcfg)
+    if envargs and "-p" in s.cmd:
+        k = s.cmd.index("-p")
+        s.env["GUNICORN_CMD_ARGS"] = "--pid %s" % s.cmd[k + 1]
+        del s.cmd[k:k + 2]
     masters = {}           # name -> pid
     stop = threading.Event()
     counters = {"refused": 0, "complete": 0, "failed": 0}
@@ -243,7 +248,7 @@ def run_history(hist, bind, stopsig, wk="sync", nopid=False, extra_args=()):
         stop.set()
         [t.join(6) for t in ths]
         tr = {"unix": bind == "unix", "nopid": bool(nopid), "ev": ev}
-        return tr, {"hist": hist, "bind": bind, "wk": wk, "nopid": bool(nopid), "extra_args": list(extra_args) + (["@release"] if release else []) + (["@relcfg"] if relcfg else []), "sig": int(stopsig), "complete": counters["complete"], "failed": counters["failed"],
+        return tr, {"hist": hist, "bind": bind, "wk": wk, "nopid": bool(nopid), "extra_args": list(extra_args) + (["@release"] if release else []) + (["@relcfg"] if relcfg else []) + (["@envargs"] if envargs else []), "sig": int(stopsig), "complete": counters["complete"], "failed": counters["failed"],
                     "masters": masters}
     finally:
         stop.set()
@@ -300,6 +305,7 @@ def c14(ctx):
                 (HISTORIES[4], "tcp", signal.SIGTERM, False, ("--timeout", "0")),
                 (HISTORIES[14], "unix", signal.SIGTERM), (HISTORIES[15], "unix", signal.SIGTERM), (HISTORIES[16], "unix", signal.SIGTERM),
                 (HISTORIES[0], "tcp", signal.SIGTERM, False, ("@relcfg",)),
+                (HISTORIES[0], "unix", signal.SIGTERM, False, ("@envargs",)),
                 # workers are recycled (--max-requests under the client load) while the upgrade is pending
                 (HISTORIES[0], "tcp", signal.SIGTERM, False, ("--max-requests", "3")),
                 # a "current -> releases/N" deployment: every USR2 follows a switch of the symlink
@@ -310,6 +316,7 @@ def c14(ctx):
         plan += [(HISTORIES[k], b, signal.SIGTERM, False, ("--timeout", "0")) for k in (0, 1, 3, 4) for b in ("tcp", "unix")]
         plan += [(HISTORIES[k], b, signal.SIGTERM, False, ("@release",)) for k in (0, 1, 3, 4) for b in ("tcp", "unix")]
         plan += [(HISTORIES[k], b, signal.SIGTERM, False, ("--max-requests", "3")) for k in (0, 1, 2, 3) for b in ("tcp", "unix")]
+        plan += [(HISTORIES[k], b, signal.SIGTERM, False, ("@envargs",)) for k in (0, 1, 3, 4) for b in ("tcp", "unix")]
     from props.reload_real import _parallel
     results = _parallel(plan, lambda a, i: run_history(a[0], a[1], a[2], wk=rng.choice(["sync", "gthread"]), nopid=len(a) > 3 and a[3],
                                                            extra_args=a[4] if len(a) > 4 else ()), par=11)
